@@ -8,9 +8,9 @@ open World
 theorem CountsH.noptr {w w' : World} {E : List Id} (h : CountsH w E) (hH : w'.H = w.H) (hs : w'.stash = w.stash)
     (hst : w'.stack = w.stack) (hn : w'.next = w.next)
     (hf : ∀ u, fieldsOf (w'.heap u) = fieldsOf (w.heap u)) (hrc : ∀ u, (w'.heap u).rc = (w.heap u).rc)
-    (hbl : ∀ u, (w'.heap u).boxLive = (w.heap u).boxLive) (hpc : ∀ x ∈ w'.pc, x ∈ w.pc)
+    (hpc : ∀ x ∈ w'.pc, x ∈ w.pc)
     (hm : ∀ x, (w'.metas x).accessible = true → (w.metas x).accessible = true) : CountsH w' E :=
-  h.same (fun x => refs_congr w w' x hH hs (by rw [hst]) hn (fun u _ => hf u)) hrc (fun x hx => by rw [← hbl]; exact hx) hn
+  h.same (fun x => refs_congr w w' x hH hs (by rw [hst]) hn (fun u _ => hf u)) hrc hn
     (fun f hf => by rw [← hst]; exact hf) (fun x hx => Or.inl (hpc x hx)) (acc_of_mono h hm)
 
 @[simp] theorem weakDrop_pc (w : World) (r : WRef) : (w.weakDrop r).pc = w.pc := by
@@ -77,7 +77,7 @@ macro "acc_tac" : tactic => `(tactic| (
     | (simp only [s_emit_metas, s_push_metas, s_setH_metas, s_setW_metas, s_setK_metas, s_upd_metas, s_raise_metas, s_raiseLogged_metas, s_startCollect_metas, removeFromList_metas', addToList_metas', cloneOk_metas] at hx))))
 
 macro "noptr" h:ident : tactic => `(tactic| (
-  refine CountsH.toCounts (CountsH.noptr $h ?_ ?_ ?_ ?_ ?_ ?_ ?_ ?_ ?_)
+  refine CountsH.toCounts (CountsH.noptr $h ?_ ?_ ?_ ?_ ?_ ?_ ?_ ?_)
   all_goals first
     | rfl
     | (simp; done)
@@ -94,14 +94,14 @@ theorem count_replicate_self (n : Nat) (x y : Id) : (List.replicate n x).count y
 theorem CountsH.incrRc {w : World} {E : List Id} (h : CountsH w E) (y : Id) (n : Nat) (hy : y < w.next) :
     CountsH (w.upd y fun o => { o with rc := o.rc + n }) (List.replicate n y ++ E) := by
   refine ⟨?_, ?_, h.frames, h.pcb, h.mfresh⟩
-  · intro x hx
+  · intro x
     rw [refs_upd_same w y _ x rfl, List.count_append, count_replicate_self]
     by_cases hxy : y = x
     · subst hxy
-      have := h.le y (by simpa using hx)
+      have := h.le y
       simp; omega
     · have hxy' : ¬ x = y := fun e => hxy e.symm
-      have := h.le x (by simpa [upd, Heap.set, hxy'] using hx)
+      have := h.le x
       simp [upd, Heap.set, hxy', hxy]; omega
   · intro x hx
     have hx' : w.next ≤ x := hx
@@ -120,8 +120,8 @@ theorem refs_stash (w : World) (g : Id → Nat) (x : Id) : refs { w with stash :
 theorem CountsH.toStash {w : World} {E : List Id} {y : Id} {n : Nat} (h : CountsH w (List.replicate n y ++ E)) :
     CountsH { w with stash := fun z => if z = y then w.stash y + n else w.stash z } E := by
   refine ⟨?_, ?_, h.frames, h.pcb, h.mfresh⟩
-  · intro x hx
-    have h1 := h.le x hx
+  · intro x
+    have h1 := h.le x
     have h2 := refs_stash w (fun z => if z = y then w.stash y + n else w.stash z) x
     rw [List.count_append, count_replicate_self] at h1
     show refs _ x + E.count x ≤ (w.heap x).rc
@@ -142,8 +142,8 @@ theorem CountsH.toStash {w : World} {E : List Id} {y : Id} {n : Nat} (h : Counts
 theorem CountsH.fromStash {w : World} {E : List Id} (h : CountsH w E) (y : Id) (k : Nat) (hk : k ≤ w.stash y) :
     CountsH { w with stash := fun z => if z = y then w.stash y - k else w.stash z } (List.replicate k y ++ E) := by
   refine ⟨?_, ?_, h.frames, h.pcb, h.mfresh⟩
-  · intro x hx
-    have h1 := h.le x hx
+  · intro x
+    have h1 := h.le x
     have h2 := refs_stash w (fun z => if z = y then w.stash y - k else w.stash z) x
     rw [List.count_append, count_replicate_self]
     show refs _ x + _ ≤ (w.heap x).rc
